@@ -58,14 +58,23 @@ def _codecfg(code, pos):
     return c
 
 
-def shape_register(reg, code, pos='suffix'):
+DECORATORS = {'plus': '+', 'plus_plus': '++', 'minus': '-', 'minus_minus': '--', 'exclamation': '!', 'at': '@'}
+
+
+def shape_register(reg, code, pos='suffix', decorator=None):
+    """decorator: None | (type, is_prefix)"""
     def cfg(de):
         c = {'type': 'register', 'register': reg}
         if code is not None:
             c['bytecode'] = _codecfg(code, pos)
+        if decorator is not None:
+            c['decorator'] = {'type': decorator[0], 'is_prefix': decorator[1]}
         return c
+    text = reg
+    if decorator is not None:
+        text = DECORATORS[decorator[0]] + reg if decorator[1] else reg + DECORATORS[decorator[0]]
     return {'kind': 'register', 'cfg': cfg, 'pos': pos, 'align': False, 'endian': None,
-            'insts': [(reg, code, None)], 'needs': set()}
+            'insts': [(text, code, None)], 'needs': set()}
 
 
 def shape_numeric(width, align=True, endian=None, code=None, pos='suffix', wrap='{}', typ='numeric', nvals=None):
@@ -84,9 +93,11 @@ def shape_numeric(width, align=True, endian=None, code=None, pos='suffix', wrap=
             'consts': {cname: cval}}
 
 
-def shape_indirect_register(reg, code, pos='suffix', offset=None, align=True, endian=None):
+def shape_indirect_register(reg, code, pos='suffix', offset=None, align=True, endian=None, decorator=None):
     def cfg(de):
         c = {'type': 'indirect_register', 'register': reg}
+        if decorator is not None:
+            c['decorator'] = {'type': decorator[0], 'is_prefix': decorator[1]}
         if code is not None:
             c['bytecode'] = _codecfg(code, pos)
         if offset is not None:
@@ -97,6 +108,9 @@ def shape_indirect_register(reg, code, pos='suffix', offset=None, align=True, en
     else:
         insts = [(f'[{reg}]', code, (0, offset)), (f'[{reg}+1]', code, (1, offset)), (f'[ {reg} + 2 ]', code, (2, offset)),
                  (f'[{reg}-1]', code, (-1, offset)), (f'[{reg}+{(1 << (offset - 1)) - 1}]', code, ((1 << (offset - 1)) - 1, offset))]
+    if decorator is not None:
+        d = DECORATORS[decorator[0]]
+        insts = [((d + t if decorator[1] else t + d), c, a) for t, c, a in insts]
     return {'kind': 'indirect_register', 'cfg': cfg, 'pos': pos, 'align': align, 'endian': endian, 'insts': insts, 'needs': set()}
 
 
